@@ -339,10 +339,11 @@ class Gen:
                 if "skip" in self.f and rng.random() < 0.15:
                     f.skip = True
                 fields.append(f)
-                if t.kind in ("UInt", "Int") and nb <= 2 and cond is None and f.requires is None:
+                # a field marked Skip is absent from text output, so nothing may depend on it
+                if t.kind in ("UInt", "Int") and nb <= 2 and cond is None and f.requires is None and not f.skip:
                     lo, hi = scalar_bounds(t)
                     ints.append(IntSrc(D.Ref(f.name), lo, hi, f.name, True))
-                if t.kind == "Enum" and cond is None:
+                if t.kind == "Enum" and cond is None and not f.skip:
                     enum_fields.append((f.name, self.enum_by_name(t.enum)))
             elif kind == "enum_tag":
                 ok = [e for e in self.enums if e.max_bits >= 8]
